@@ -52,6 +52,12 @@ impl Stats {
         if !out.late_tasks.is_empty() {
             self.count("probe.run_returned_with_tasks_in_flight");
         }
+        if out.log.iter().any(|l| l.starts_with("run returned with tasks still in their job, held")) {
+            self.count("probe.stragglers_held_for_next_run");
+        }
+        if out.log.iter().any(|l| l.starts_with("stragglers of the previous run released")) {
+            self.count("probe.stragglers_released_inside_next_run");
+        }
         if out.idle_polls > 0 {
             self.add("sched.idle_polls", out.idle_polls as u64);
         }
